@@ -101,13 +101,17 @@ def observe_compiled(desc, flavor, lib, explicit_order):
     import ufo2ft
     from fontTools.ttLib import TTFont
     from ufo2ft.errors import InvalidFontData
-    font = build_font(desc if not explicit_order else dict(desc, glyphOrder=None), lib)
+    font = build_font(desc if explicit_order in (False, "empty-over-stored") else dict(desc, glyphOrder=None), lib)
     kw = {"useProductionNames": False}
     # the "stored glyph order" is what the font object reports (defcon synthesises
     # one from creation order when none was set)
-    effective = list(desc["glyphOrder"]) if explicit_order else list(font.glyphOrder)
-    if explicit_order:
+    effective = list(desc["glyphOrder"]) if explicit_order is True else list(font.glyphOrder)
+    if explicit_order is True:
         kw["glyphOrder"] = desc["glyphOrder"]
+    elif explicit_order == "empty-over-stored":
+        # an explicitly EMPTY glyphOrder argument on a font that stores a (non-trivial) order: the argument wins
+        kw["glyphOrder"] = []
+        effective = []
     try:
         tt = (ufo2ft.compileTTF if flavor == "ttf" else ufo2ft.compileOTF)(font, **kw)
     except InvalidFontData:
@@ -183,6 +187,10 @@ def explore(ctx):
         flavor = rng.choice(["ttf", "otf"])
         lib = rng.choice(["ufoLib2", "defcon"])
         explicit = desc["glyphOrder"] is not None and rng.random() < 0.3
+        if i % 10 == 7:
+            desc["glyphOrder"] = sorted({g["name"] for g in desc["glyphs"]}, reverse=True)
+            explicit = "empty-over-stored"
+            ctx.klass("explicit empty glyphOrder argument over a stored order")
         try:
             obs, extra = observe_compiled(desc, flavor, lib, explicit)
         except Exception as e:
